@@ -10,6 +10,15 @@ C05_RULE = (
     "shapes differ, the shape being the hash of the sequence (task at the decision point, kind of point, object index, "
     "task chosen next) over all decision points, which does not depend on the random plan values.")
 
+C10_RULE = (
+    "Each evaluation is one seeded simulated run: a plan (1..24 jobs, optional history of COMPLETE/FAILED/ASSIGNED jobs of a vanished host, "
+    "1..5 processes with 1..4 threads, cache 1..5, maxjobs, staggered starts, restart processes joining while others run or after quiescence, "
+    "job failures, and in every second plan faults: process kills at arbitrary decision points incl. inside a write() of the job file or backup, "
+    "short writes/reads, clock skew and jumps) is drawn from VERIF_SEED and the run index; the real xtp code runs as coroutine tasks grouped into "
+    "simulated processes and the seeded scheduler picks the next task at every intercepted pthread / fcntl / file / getpid / time call. A run is "
+    "non-trivial if at least one decision point had >= 2 runnable tasks; two runs are distinct if their interleaving shapes differ (hash of the "
+    "sequence (task, kind of point, object, task chosen next) over all decision points).")
+
 PROPERTIES = {
     'C05': {
         'level': 'exploration',
@@ -31,6 +40,35 @@ PROPERTIES = {
             'glibc default (non error-checking) mutex semantics: unlock by a non-owner succeeds',
             'only interleavings at intercepted calls and harness points are explored; instruction-level races between unsynchronised plain accesses are out of reach',
             'sampling, not proof: a clean batch bounds confidence by the number of distinct interleavings explored',
+        ],
+    },
+    'C10': {
+        'level': 'exploration',
+        'rule': C10_RULE,
+        'sim_time_note': 'simulated clock = 1700000000 + step/20 s + per-process skew (+ jump); only the <time> text of the job file depends on it',
+        'engines': [
+            {'name': 'c10_jobs', 'quick': 6000, 'thorough': 600000, 'san': 30000, 'chunk': 250, 'det_sample': 40,
+             'required_probes': ['probe.two_processes_alive', 'probe.kill_while_holding_file_lock', 'probe.jobfile_torn_by_kill',
+                                 'probe.operator_restored_backup', 'probe.survivor_aborted_on_torn_file',
+                                 'probe.restart_reopened_while_other_alive', 'probe.short_write_split_jobfile', 'probe.maxjobs_reached',
+                                 'probe.sync_without_new_job', 'fault.kill_in_write_jobfile', 'fault.kill_in_write_backup',
+                                 'fault.kill_at_fopen', 'fault.kill_at_funlock', 'fault.kill_at_mutex']},
+        ],
+        'components': {
+            'real': ['xtp/src/libxtp/progressobserver.cc', 'xtp/src/libxtp/job.cc', 'xtp/src/libxtp/parallelxjobcalc.cc (Evaluate, JobOperator::Run; compiled from a copy next to a stub xtp_libint2.h)',
+                     'xtp/include/votca/xtp/qmthread.h, logger.h', 'boost::interprocess::file_lock (real header code; its syscalls are simulated)',
+                     'tools::Property XML load/print (expat)', 'tools::Thread / tools::Mutex', 'libstdc++ file streams (real; write/read/fopen/fclose reach the simulated file layer)'],
+            'stub': ['job calculator: EvalJob returns a unique token after plan-chosen decision points, COMPLETE or plan-chosen FAILED',
+                     'libint2::initialize/finalize: empty', 'xtp::Topology: never dereferenced', 'xtp_parallel option parsing: a boost variables_map filled by the harness',
+                     'open/close/fcntl record locks, getpid, gethostname, time, localtime_r: simulated per simulated process',
+                     'pthread_*: simulated (tasks = coroutines)', 'operator: restores the job file from the backup at quiescence if it is not a complete list'],
+        },
+        'assumptions': [
+            'Linux POSIX advisory record-lock semantics on a local file system: shared/shared compatible, exclusive conflicts with other processes only, all locks of a process on a file dropped when it closes any descriptor of that file or dies',
+            'a kill leaves exactly the bytes already passed to write(); no power-loss model (un-fsynced data is not lost)',
+            'hosts differ by pid only; restart patterns naming ASSIGNED/COMPLETE jobs of live hosts are not generated (the tool itself warns that they double-assign by design)',
+            'ENOSPC/EIO on the job file, pthread_create failure and allocation failure are not injected: the property is silent about them',
+            'sampling, not proof',
         ],
     },
 }
